@@ -41,6 +41,10 @@ LEVEL_NOTE = (
     'size is measured, not modelled; volatile functions are excluded by the statement (Sem.app is a function).')
 DESIGN_REF = '§4 C05'
 
+# theorems of the integrated pipeline model (Props/X01.lean) that carry this property's theorems to formula TEXTS in a
+# compiled workbook; re-built and audited with this check (harness/common.prepare: soft obligations)
+TRANSPORT = ('XlVerif.Props.X01', ['X01_order_independent', 'X01_idempotent'])
+
 TRUSTED = [
     'Lean 4.33 kernel; axioms propext, Classical.choice, Quot.sound only',
     'hand-written model lean/XlVerif/Model/Evaluator.lean + Model/C04.lean (Sys: evaluators sharing a model), '
